@@ -9,6 +9,8 @@ package main
 //	c09NeedsChecksLive   DB.NeedsTable reads the checkpoint list and the live level list (1), checkpoints only (0)
 //	c09NeedsLiveFirst    … and reads the live level list before the checkpoint list (1) or after it (0)
 //	c09CkptUsesLevels    Checkpoint.IncludesTable consults cp.Levels when there is no URI index (1) or only the index (0)
+//	c09DeployClosesFirst Operator.HandleDeploy closes the previous database before dkv.Open (1)
+//	c09CloseWaits        DB.Close waits for every background task the instance enqueued (1)
 //	c09NextWalIsMax      Checkpoint.NextWALID is the maximum WAL id over all handles plus one (1), or taken from one
 //	                     handle by position (0)
 //	c09LoadedGuarded     the cleanup of sst.NewTableFromDocument calls p.deleteFunc only inside `if canDelete {…}` (1)
@@ -316,6 +318,98 @@ func c09Facts(fc *facts) {
 		default:
 			fc.set("c09CkptUsesLevels", 0, false, "Checkpoint.IncludesTable (URI index lookup and/or <cp>.Levels.IncludesTable)")
 		}
+	}
+
+	// --- the previous instance of a directory is quiesced before the directory is reopened (D63, hard facts) ---
+	// c09DeployClosesFirst: Operator.HandleDeploy calls `<o>.db.Close()` before it calls `dkv.Open(..)`.
+	// c09CloseWaits: DB.Close calls `<db>.<wg>.Wait()`, a method `enqueue` of DB does `<db>.<wg>.Add(..)` and defers
+	//   `<db>.<wg>.Done()` around the task, and no other function of dkv/db.go enqueues a task on the shared queues.
+	of := parseFile("workers/operator/operator.go")
+	hd := findFunc(of, "Operator", "HandleDeploy")
+	if hd == nil || hd.Body == nil {
+		problemFor([]string{"c09DeployClosesFirst"}, "Operator.HandleDeploy not found")
+	} else {
+		var closePos, openPos token.Pos
+		ast.Inspect(hd.Body, func(x ast.Node) bool {
+			c, ok := x.(*ast.CallExpr)
+			if !ok {
+				return true
+			}
+			if sel, ok := c.Fun.(*ast.SelectorExpr); ok {
+				if sel.Sel.Name == "Close" {
+					if in, ok := sel.X.(*ast.SelectorExpr); ok && in.Sel.Name == "db" && closePos == 0 {
+						closePos = c.Pos()
+					}
+				}
+				if n := selName(c.Fun); (n == "dkv.Open" || n == "dkv.New") && openPos == 0 {
+					openPos = c.Pos()
+				}
+			}
+			return true
+		})
+		v := uint64(0)
+		if closePos != 0 && openPos != 0 && closePos < openPos {
+			v = 1
+		}
+		fc.set("c09DeployClosesFirst", v, openPos != 0, "HandleDeploy `dkv.Open(..)` / `dkv.New(..)`")
+	}
+	closeFn := findFunc(df, "DB", "Close")
+	enq := findFunc(df, "DB", "enqueue")
+	{
+		wg := ""
+		if closeFn != nil && closeFn.Body != nil {
+			ast.Inspect(closeFn.Body, func(x ast.Node) bool {
+				if c, ok := x.(*ast.CallExpr); ok {
+					if sel, ok := c.Fun.(*ast.SelectorExpr); ok && sel.Sel.Name == "Wait" {
+						if in, ok := sel.X.(*ast.SelectorExpr); ok {
+							wg = in.Sel.Name
+						}
+					}
+				}
+				return true
+			})
+		}
+		adds, dones := false, false
+		if enq != nil && enq.Body != nil && wg != "" {
+			ast.Inspect(enq.Body, func(x ast.Node) bool {
+				switch n := x.(type) {
+				case *ast.CallExpr:
+					if sel, ok := n.Fun.(*ast.SelectorExpr); ok && sel.Sel.Name == "Add" {
+						if in, ok := sel.X.(*ast.SelectorExpr); ok && in.Sel.Name == wg {
+							adds = true
+						}
+					}
+				case *ast.DeferStmt:
+					if sel, ok := n.Call.Fun.(*ast.SelectorExpr); ok && sel.Sel.Name == "Done" {
+						if in, ok := sel.X.(*ast.SelectorExpr); ok && in.Sel.Name == wg {
+							dones = true
+						}
+					}
+				}
+				return true
+			})
+		}
+		// every use of the shared task queues goes through enqueue
+		stray := false
+		for _, d := range df.Decls {
+			fd, ok := d.(*ast.FuncDecl)
+			if !ok || fd.Body == nil || fd.Name.Name == "enqueue" {
+				continue
+			}
+			ast.Inspect(fd.Body, func(x ast.Node) bool {
+				if c, ok := x.(*ast.CallExpr); ok {
+					if sel, ok := c.Fun.(*ast.SelectorExpr); ok && sel.Sel.Name == "Enqueue" {
+						stray = true
+					}
+				}
+				return true
+			})
+		}
+		v := uint64(0)
+		if wg != "" && adds && dones && !stray {
+			v = 1
+		}
+		fc.set("c09CloseWaits", v, closeFn != nil, "DB.Close")
 	}
 
 	// --- Checkpoint.NextWALID ---
